@@ -74,6 +74,7 @@ THEOREMS = [
     "Nix.C12.copy_functions_safe",
     "Nix.C12.copy_refused_unchanged",
     "Nix.C12.late_name_check_counterexample",
+    "Nix.C12.guarded_fn_refused_unchanged",
     "Nix.C12.create_property_pre_safe",
     "Nix.C12.create_property_refused_unchanged",
     "Nix.C12.create_property_accepted",
